@@ -7,9 +7,10 @@ def make_estimator_class():
     class HarnessEstimator(Estimator):
         """Estimator whose bounds the harness knows: upper = f(corners, direction), lower = -g(...)."""
 
-        def __init__(self, potential, bound_function, prefactor=1.0):
+        def __init__(self, potential, bound_function, prefactor=1.0, sign=1.0):
             super().__init__(potential=potential, prefactor=prefactor)
             self._bound_function = bound_function
+            self._sign = sign      # (an estimator bound to a negative target charge has a negative correction factor)
             self.calls = 0
 
         def derivative_bound(self, lower_corner, upper_corner, direction, calculate_lower_bound=False):
@@ -27,8 +28,8 @@ def make_estimator_class():
                     return out
                 return x
             if target_charges is None:
-                return prod(active_charges)
-            return prod(active_charges) * prod(target_charges)
+                return self._sign * prod(active_charges)
+            return self._sign * prod(active_charges) * prod(target_charges)
     return HarnessEstimator
 
 
